@@ -67,6 +67,31 @@ pub fn op_adds(model: &Model, op: &Op) -> Result<Vec<(String, String, Ty, String
     Ok(out)
 }
 
+/// Everything a call may have written even if the model expects it to fail half-way
+/// (an `export_all` that hits an above-root dependency has legitimately written what it
+/// visited before).
+pub fn op_may_add(model: &Model, op: &Op) -> Vec<(String, String)> {
+    if let Ok(a) = op_adds(model, op) {
+        return a.into_iter().map(|x| (x.0, x.1)).collect();
+    }
+    let (root, base) = match op {
+        Op::ExportAll { ty } => (*ty, model.default_base.clone()),
+        Op::ExportAllTo { ty, dir } => (*ty, dir.clone()),
+        _ => return vec![],
+    };
+    if model.info(root).file.is_none() {
+        return vec![];
+    }
+    model
+        .closure(root)
+        .into_iter()
+        .filter_map(|t| match model.location(t, &base) {
+            Some(Ok(f)) => Some((f, model.info(t).ident.clone())),
+            _ => None,
+        })
+        .collect()
+}
+
 #[derive(Clone, Debug, PartialEq)]
 pub enum Content {
     Raw(Vec<u8>),
@@ -195,6 +220,24 @@ pub fn check_final_tree(plan: &Plan, model: &Model, exec: &Exec, no_render: bool
                 } else {
                     model.matches_render(m, g)
                 };
+                // C04's half of the same check: the file declares exactly the types exported to it
+                if let Some(module) = std::str::from_utf8(g).ok().and_then(|t| tsparse::parse_module(t).ok()) {
+                    let names: BTreeSet<&String> = module.decls.iter().map(|d| &d.name).collect();
+                    let want: BTreeSet<&String> = m.keys().collect();
+                    if names != want {
+                        v.push(Violation::new(
+                            "declared-set",
+                            &["C04"],
+                            Some(file),
+                            format!(
+                                "the file declares {:?} but the types exported to it are {:?}\n--- contents ---\n{}",
+                                names,
+                                want,
+                                show(g)
+                            ),
+                        ));
+                    }
+                }
                 if !ok {
                     v.push(Violation::new(
                         "final-tree",
@@ -504,7 +547,9 @@ pub fn check_imports(model: &Model, tree: &BTreeMap<String, Vec<u8>>, written: &
         for d in &module.decls {
             for r in &d.refs {
                 used.insert(r.as_str());
-                if !declared.contains(r.as_str()) && !imported.contains_key(r.as_str()) {
+                // a type exported without its dependencies may name same-file neighbours that
+                // were not exported (yet); the property speaks about exports with dependencies
+                if closed && !declared.contains(r.as_str()) && !imported.contains_key(r.as_str()) {
                     v.push(Violation::new(
                         "unresolved-name",
                         &["C03"],
